@@ -142,7 +142,11 @@ def polyak_cases(rep, rng, dev, tier):
 def screening_runs(rep, rng, dev, tier):
     from tdgl.solver.solver import TDGLSolver
     plans = [(1e-3, 0.5, 1.0)] if tier == "nm" else \
-        [(1e-2, 0.1, 0.5), (1e-3, 0.5, 1.0), (1e-4, 0.5, 1.0), (1e-2, 0.02, 0.5), (3e-3, 1.0, 1.0), (1e-3, 0.5, 1.0, 1e-10)] if tier == "quick" else \
+        [(1e-3, 1.0, 0.5), (1e-4, 0.5, 0.5), (1e-2, 0.25, 0.25)] if tier == "weak" else \
+        [(1e-2, 0.1, 0.5), (1e-3, 0.5, 1.0), (1e-4, 0.5, 1.0), (1e-2, 0.02, 0.5), (3e-3, 1.0, 1.0), (1e-3, 0.5, 1.0, 1e-10),
+         # full steps with momentum (step size 1, drag 1/2): the iterate that passes the test and the next Polyak iterate differ by
+         # the momentum term, whatever the tolerance
+         (1e-3, 1.0, 0.5), (1e-4, 0.5, 0.5)] if tier == "quick" else \
         [(1e-2, 0.1, 0.5), (1e-3, 0.5, 1.0), (1e-4, 0.5, 1.0), (3e-3, 1.0, 1.0), (1e-3, 0.1, 0.25), (1e-2, 1.0, 0.5)]
     # feature pair: screening together with a seed solution that carries currents, the drive (field and bias) switched OFF: the
     # only sources of the induced potential are then the currents inherited from the seed
@@ -161,7 +165,9 @@ def screening_runs(rep, rng, dev, tier):
         cur_iters = []
         bad = []
 
-        def on_step(solver, state, kw, res, it_log=it_log, cur_iters=cur_iters):
+        tested, stored_note = [], []
+
+        def on_step(solver, state, kw, res, it_log=it_log, cur_iters=cur_iters, tested=tested, stored_note=stored_note):
             errs = list(cur_iters)
             cur_iters.clear()
             it_log.append(errs)
@@ -176,6 +182,14 @@ def screening_runs(rep, rng, dev, tier):
             Js = solver.device.mesh.get_quantity_on_site(J)
             K = direct_sum(Js, indep_areas(solver), solver.sites, solver.edge_centers)
             A = np.asarray(res.A_induced)
+            if tested and not np.array_equal(A, tested[-1]):
+                if not stored_note:
+                    stored_note.append(1)
+                    rep.not_shown("correspondence: the induced potential kept for an accepted step is not the iterate that passed the "
+                                  "convergence test (P' of Model.Screen.screen_loop / C13_stored_tested_iterate_mismatch)",
+                                  {**case, "max_abs_difference": float(np.max(np.abs(A - tested[-1]))),
+                                   "max_abs_stored": float(np.max(np.abs(A)))})
+            tested.clear()
             num = np.linalg.norm(K - A, axis=1)
             den = np.maximum(np.linalg.norm(A, axis=1), 1e-20)
             ratio = float(np.max(num / den)) / tol
@@ -192,6 +206,7 @@ def screening_runs(rep, rng, dev, tier):
 
             def giv(current_density, A_vals, velocity, tol=tol, alpha=alpha, beta=beta):
                 A_prev = np.array(A_vals[-1], copy=True)
+                tested.append(A_prev)
                 A, err = orig_giv(current_density, A_vals, velocity)
                 cur_iters.append(float(err))
                 # the error the loop decides on must be the relative mismatch between the iterate and the direct sum,
@@ -233,9 +248,11 @@ def screening_runs(rep, rng, dev, tier):
                               {"tol": tol, "recorded": rec[:8], "performed": got[:8]})
         mx = max(bad) if bad else 0.0
         worst_ratio = max(worst_ratio, mx)
-        # modest multiple: |K - A'| <= |dA| + |v'|; the velocity is at most alpha/beta * max|dA| over the history
-        allowed = 2.0 + 3.0 * max(1.0, alpha / beta)
-        if mx > allowed * 10:
+        # modest multiple: the kept potential is the iterate P' that passed the test, so |K - P'|_e < tol max(tiny, |A'_e|) edge by edge
+        # (C13_stored_tested_iterate_mismatch); measured here relative to |P'_e|, and |A'_e| / |P'_e| <= 1 + |v'_e| / |P'_e|: alarm above 4
+        # (measured on the repaired tree: <= 1.06 over all plans and devices; on the tree as found: 8 .. 334)
+        allowed = 4.0
+        if mx > allowed:
             rep.violation(f"stored induced potential differs from the direct sum of the stored currents by {mx:.1f} x tolerance",
                           {"tol": tol, "alpha": alpha, "beta": beta})
         rep.count(len(it_log))
@@ -328,10 +345,14 @@ def run(rep: common.Report, tier: str, seed: int, replay=None) -> int:
     # must follow the length unit
     dev_nm = meshes.make_device(rng, holes=0, terminals=2, max_edge_length=1.1, length_units="nm", scale=1000.0)
     screening_runs(rep, rng, dev_nm, "nm")
+    # a weakly screening film (large Pearl length): the loop then passes its test after one or two iterations, while the Polyak
+    # velocity still carries the first full step - the accepted potential must nevertheless be the self-consistent one
+    dev_weak = meshes.make_device(rng, holes=0, terminals=2, max_edge_length=1.1, london_lambda=5.0, d=0.05)
+    screening_runs(rep, rng, dev_weak, "weak")
     rep.coverage.update({"kernel_cases": len(kt), "polyak_cases": len(pt), "correspondence_disagreements": ndis})
     rep.assumptions += ["numba fastmath/parallel kernel compared with tolerance 1e-9 (reassociation allowed)",
                         "site averaging get_quantity_on_site computed by the implementation and passed to the model as data",
-                        "'modest multiple' of the tolerance: measured ratio reported; alarm above 10 x (2 + 3 max(1, alpha/beta))"]
+                        "'modest multiple' of the tolerance: measured ratio reported; alarm above 4 x tolerance"]
     return rep.finish(level="proof", trusted_base=common.STD_TRUSTED,
                       rule="kernel / polyak cases compared with the model; every step of every screening run evaluates the oracle; "
                            "non-trivial = distinct (kind, sizes / alpha, beta, tol)")
